@@ -94,10 +94,20 @@ func VerifH_C09_cosim() {
 		for i, t := range tracks {
 			i, t := i, t
 			switch t.Codec.(type) {
-			case *codecs.H264:
+			case *codecs.H264, *codecs.H265:
 				c.OnDataH26x(t, func(pts int64, dts int64, au [][]byte) {
 					a, ok := c.AbsoluteTime(t)
 					delivered[i] = append(delivered[i], got{pts, dts, au, a, ok})
+				})
+			case *codecs.VP9:
+				c.OnDataVP9(t, func(pts int64, frame []byte) {
+					a, ok := c.AbsoluteTime(t)
+					delivered[i] = append(delivered[i], got{pts, pts, [][]byte{frame}, a, ok})
+				})
+			case *codecs.AV1:
+				c.OnDataAV1(t, func(pts int64, tu [][]byte) {
+					a, ok := c.AbsoluteTime(t)
+					delivered[i] = append(delivered[i], got{pts, pts, tu, a, ok})
 				})
 			case *codecs.MPEG4Audio:
 				c.OnDataMPEG4Audio(t, func(pts int64, aus [][]byte) {
@@ -137,6 +147,15 @@ func VerifH_C09_cosim() {
 		case *codecs.H264:
 			cc, ok := t.Codec.(*codecs.H264)
 			verifAssert("C09", "track-codec-type-and-parameters", ok && bytes.Equal(cc.SPS, mc.SPS) && (bytes.Equal(cc.PPS, mc.PPS) || g.pending || g.open.forced))
+		case *codecs.H265:
+			cc, ok := t.Codec.(*codecs.H265)
+			verifAssert("C09", "track-codec-type-and-parameters", ok && bytes.Equal(cc.VPS, mc.VPS) && (g.pending || g.open.forced || (bytes.Equal(cc.SPS, mc.SPS) && bytes.Equal(cc.PPS, mc.PPS))))
+		case *codecs.VP9:
+			cc, ok := t.Codec.(*codecs.VP9)
+			verifAssert("C09", "track-codec-type-and-parameters", ok && (g.pending || g.open.forced || (cc.Width == mc.Width && cc.Height == mc.Height && cc.Profile == mc.Profile && cc.BitDepth == mc.BitDepth)))
+		case *codecs.AV1:
+			cc, ok := t.Codec.(*codecs.AV1)
+			verifAssert("C09", "track-codec-type-and-parameters", ok && (g.pending || g.open.forced || bytes.Equal(cc.SequenceHeader, mc.SequenceHeader)))
 		case *codecs.MPEG4Audio:
 			cc, ok := t.Codec.(*codecs.MPEG4Audio)
 			verifAssert("C09", "track-codec-type-and-parameters", ok && cc.Config.SampleRate == mc.Config.SampleRate && cc.Config.ChannelCount == mc.Config.ChannelCount)
